@@ -458,6 +458,12 @@ func PoolConcurrent(pw *poolWriter, seed int64, ty string, ch, l, k, G, M, procs
 	return
 }
 
+// PoolScriptFile / PoolScriptShape are set by the command line for the "poolscript" profile.
+var (
+	PoolScriptFile  string
+	PoolScriptShape = [3]int{2, 1, 3}
+)
+
 func runPoolProfile(profile string, thorough bool, seed int64, out string) (*Stats, error) {
 	rng := rand.New(rand.NewSource(seed*104729 + 5))
 	st := &Stats{Profile: profile, Ops: map[string]int{}, Extra: map[string]int{}, Types: BuiltinTypes}
@@ -496,6 +502,12 @@ func runPoolProfile(profile string, thorough bool, seed int64, out string) (*Sta
 			PoolCycles(pw, BuiltinTypes[(i*3)%13], sh[0], sh[1], sh[2], 10)
 			st.Extra["cycles"] += 10
 		}
+	case "poolscript":
+		n, g, r, err := PoolScripts(pw, PoolScriptFile, BuiltinTypes[int(seed)%13], PoolScriptShape[0], PoolScriptShape[1], PoolScriptShape[2])
+		if err != nil {
+			return nil, err
+		}
+		st.Extra["scripts"], st.Extra["gets"], st.Extra["reused_gets"] = n, g, r
 	case "poolzero":
 		for _, ty := range typesFor(false) {
 			st.Extra["zero_pool_cycles"] += PoolZero(pw, rng, ty)
@@ -547,4 +559,120 @@ func runPoolProfile(profile string, thorough bool, seed int64, out string) (*Sta
 	st.Events = pw.Events
 	st.Cases = pw.Events
 	return st, nil
+}
+
+// PoolScripts executes TLC-generated pool behaviours (PoolGen.tla; one JSON array per line): operations name a
+// buffer by the holder's slot; the real pool decides which buffer a Get returns.
+func PoolScripts(pw *poolWriter, path, ty string, ch, l, k int) (scripts, gets, reuses int, err error) {
+	f, err := os.Open(path)
+	if err != nil {
+		return 0, 0, 0, err
+	}
+	defer f.Close()
+	sc := bufio.NewScanner(f)
+	sc.Buffer(make([]byte, 1<<20), 1<<26)
+	for sc.Scan() {
+		var ops []genOp
+		if err := json.Unmarshal(sc.Bytes(), &ops); err != nil {
+			return scripts, gets, reuses, err
+		}
+		scripts++
+		pool := NewPool(ty, allocator(ch, l, k))
+		pw.tid++
+		pw.Traces++
+		pw.emit(&PEvent{Op: "NewPool", Kind: KindOf(ty), Ch: ch, L: l, K: k, Procs: 1, Res: "ok", Allocs: -1})
+		ids := map[any]int{}
+		keep := []View{}
+		var held []heldBuf
+		stamp := int64(0)
+		next := func() int64 { stamp = stamp%100 + 1; return stamp }
+		for _, g := range ops {
+			a := g.A
+			if g.K != "Get" && (len(a) == 0 || a[0] < 1 || a[0] > len(held)) {
+				break
+			}
+			switch g.K {
+			case "Get":
+				v := pool.Get(scripts%2 == 0)
+				keep = append(keep, v)
+				id, seen := ids[v.Raw()]
+				if !seen {
+					id = len(ids) + 1
+					ids[v.Raw()] = id
+				}
+				gets++
+				e := &PEvent{Op: "Get", G: 1, ID: id, Res: "ok", View: obsOf(v), Allocs: -1}
+				if seen {
+					e.Reused = 1
+					reuses++
+				}
+				pw.emit(e)
+				held = append(held, heldBuf{v, id})
+			case "Put":
+				h := held[a[0]-1]
+				res := run(func() { pool.Put(h.v, scripts%2 == 1) })
+				pw.emit(&PEvent{Op: "Put", G: 1, ID: h.id, Res: res, Allocs: -1})
+				held = append(held[:a[0]-1], held[a[0]:]...)
+			default:
+				h := &held[a[0]-1]
+				v := h.v
+				e := &PEvent{Op: "Use", G: 1, ID: h.id, Res: "ok", Kind: g.K, Allocs: -1}
+				switch g.K {
+				case "AppendSample":
+					x := next()
+					v.AppendSample(x)
+					e.A = []int64{x}
+				case "SetSample":
+					if a[1] >= v.Len() {
+						continue
+					}
+					x := next()
+					v.SetSample(a[1], x)
+					e.A = []int64{int64(a[1]), x}
+				case "Write":
+					in := make([]int64, a[1])
+					for i := range in {
+						in[i] = next()
+					}
+					v.Write(KindOf(ty), in)
+					e.A = in
+				case "Append":
+					if ch == 0 || v.Len()%ch != 0 || v.Len()+ch*a[1] > v.Cap() {
+						continue
+					}
+					src := NewView(ty, allocator(ch, a[1], a[1]))
+					in := make([]int64, ch*a[1])
+					for i := range in {
+						in[i] = next()
+					}
+					src.Write(KindOf(ty), in)
+					v.Append(src)
+					e.A = in
+				case "Slice0", "Fill":
+					fr := k
+					if g.K == "Slice0" {
+						fr = a[1]
+					}
+					nv := v.Slice(0, fr)
+					keep = append(keep, nv)
+					ids[nv.Raw()] = h.id
+					h.v, v = nv, nv
+					e.Kind, e.A = "Slice0", []int64{int64(fr)}
+					if g.K == "Fill" {
+						e.View = obsOf(v)
+						pw.emit(e)
+						in := make([]int64, v.Len())
+						for i := range in {
+							in[i] = next()
+						}
+						v.Write(KindOf(ty), in)
+						e = &PEvent{Op: "Use", G: 1, ID: h.id, Res: "ok", Kind: "Write", A: in, Allocs: -1}
+					}
+				}
+				e.View = obsOf(v)
+				pw.emit(e)
+			}
+		}
+	}
+	return scripts, gets, reuses, sc.Err()
 }
